@@ -16,7 +16,7 @@ import (
 // C06: natural-language text survives both codecs byte for byte.
 
 var textProps = []string{"name", "summary", "content", "preferredUsername", "source.content", "source.content-only"}
-var textForms = []string{"single-untagged", "single-tagged", "map-entry"}
+var textForms = []string{"single-untagged", "single-tagged", "map-entry", "map-entry-untagged"}
 var textCodecs = []string{"json-pkg", "json-method", "gob-pkg", "gob-method"}
 
 // text corpus by class (valid UTF-8 only: the statement's domain)
@@ -106,6 +106,17 @@ func buildTextValue(prop, form, s string, r *rand.Rand) (vocab.Item, func(any) (
 		nlv = vocab.NaturalLanguageValues{{Ref: vocab.NilLangRef, Value: vocab.Content(s)}}
 	case "single-tagged":
 		nlv = vocab.NaturalLanguageValues{{Ref: textTags[r.Intn(len(textTags))], Value: vocab.Content(s)}}
+	case "map-entry-untagged":
+		// the text sits in the untagged entry of a list that also has tagged ones
+		n := 2 + r.Intn(2)
+		pos := r.Intn(n)
+		for i := 0; i < n; i++ {
+			if i == pos {
+				nlv = append(nlv, vocab.LangRefValue{Ref: vocab.NilLangRef, Value: vocab.Content(s)})
+			} else {
+				nlv = append(nlv, vocab.LangRefValue{Ref: textTags[i], Value: vocab.Content("other text " + fmt.Sprint(i))})
+			}
+		}
 	default:
 		tags := append([]vocab.LangRef{}, textTags...)
 		r.Shuffle(len(tags), func(i, j int) { tags[i], tags[j] = tags[j], tags[i] })
@@ -241,7 +252,7 @@ func checkText(c *Ctx, prop, form, codec, class, s string) {
 }
 
 func formClass(form string) string {
-	if form == "map-entry" {
+	if strings.HasPrefix(form, "map-entry") {
 		return "map"
 	}
 	return "single"
@@ -282,7 +293,7 @@ func init() {
 	per := nProp * nForm * nCodec
 	Register(&Prop{
 		ID: "C06",
-		Rule: "cases: every text class (HTML, quotes, backslashes, newlines, control characters, astral code points, escape look-alikes, JSON-looking text, 1- and 2-byte texts, JSON fragments) x the text-bearing properties (name, summary, content, preferredUsername, source content with and without a media type) x {single untagged, single tagged, entry of a 2-3 language map} x {JSON package pair, JSON method pair, gob package pair, gob method pair}, exhaustively; a sweep of ~13 000 individual code points (U+0000-U+2FFF and the edges of the planes) one per case; " +
+		Rule: "cases: every text class (HTML, quotes, backslashes, newlines, control characters, astral code points, escape look-alikes, JSON-looking text, 1- and 2-byte texts, JSON fragments) x the text-bearing properties (name, summary, content, preferredUsername, source content with and without a media type) x {single untagged, single tagged, entry of a 2-3 language map, untagged entry of a 2-3 entry list} x {JSON package pair, JSON method pair, gob package pair, gob method pair}, exhaustively; a sweep of ~13 000 individual code points (U+0000-U+2FFF and the edges of the planes) one per case; " +
 			"then seeded random valid-UTF-8 strings (length 1-64) over an alphabet biased to \\ \" / n t u digits braces brackets control bytes and multi-byte runes; oracle is bytes.Equal on the text and equality of the tags; distinct = (codec, property, form, text); non-trivial = the text is not plain ASCII letters",
 		Layers: func(tier string) []Layer {
 			return []Layer{
